@@ -35,6 +35,88 @@ CHECKS = {
         design_ref="§6 C14",
         technique="Lean 4 proof by induction over the text (model = spec) + exhaustive differential correspondence model/impl",
     ),
+    "C01": dict(
+        engine="core",
+        category="other",
+        text="Correspondence + direct oracle (theorem gen_equiv_interp pending, see DESIGN §6 C01): the Lean mirror of every generate() template (LG) is compared with the exec'd Parser.generate() module, and the Lean mirror of the interpreter (L1) with Parser.parse, exactly (tree with tags, furthest position, expected/unexpected key lists), on random grammars from 13 feature groups and on the bundled grammars; the same run compares Parser.parse with the generated parse on the same Parser object (dump, or furthest position when both fail), checks that the source compiles and that generating twice gives identical source.",
+        design_ref="§6 C01",
+        technique="hand-written Lean 4 model (spec/interp/gen/opt layers) tied to the code by differential correspondence; property oracle on the implementation; Lean theorems being added",
+    ),
+    "C02": dict(
+        engine="core",
+        category="other",
+        text="Correspondence + direct oracle (theorem optimizer_sound pending): the Lean mirror of the optimizer is compared with the real Optimizer's output AS TREES for the default pipeline and random lists of default passes; opt/optgen parse results are compared with the model; the same run compares optimizer=None with Optimizer(passes) interpreted and generated.",
+        design_ref="§6 C02",
+        technique="hand-written Lean 4 model (spec/interp/gen/opt layers) tied to the code by differential correspondence; property oracle on the implementation; Lean theorems being added",
+    ),
+    "C03": dict(
+        engine="core",
+        category="other",
+        text="Executable specification L0 of pest's semantics (lean/PestModel/Spec.lean) run by the Lean driver against the interpreter on core-operator grammars (trees and success/failure), plus exact correspondence of the L1 mirror; theorem interp_refines_spec pending.",
+        design_ref="§6 C03",
+        technique="hand-written Lean 4 model (spec/interp/gen/opt layers) tied to the code by differential correspondence; property oracle on the implementation; Lean theorems being added",
+    ),
+    "C04": dict(
+        engine="core",
+        category="other",
+        text='Executable specification L0 (implicit trivia placement, atomicity, @-hiding) against all four execution modes on trivia/modifier feature groups, plus exact correspondence of the L1/LG/OPT mirrors; refinement theorem pending.',
+        design_ref="§6 C04",
+        technique="hand-written Lean 4 model (spec/interp/gen/opt layers) tied to the code by differential correspondence; property oracle on the implementation; Lean theorems being added",
+    ),
+    "C05": dict(
+        engine="core",
+        category="other",
+        text='Executable specification L0 (stack operations, undo on backtracking) against all four modes on stack feature groups with nested catch points, plus exact correspondence of L1/LG; rests on the C09 refinement theorem for the stack; refinement theorem pending.',
+        design_ref="§6 C05",
+        technique="hand-written Lean 4 model (spec/interp/gen/opt layers) tied to the code by differential correspondence; property oracle on the implementation; Lean theorems being added",
+    ),
+    "C06": dict(
+        engine="core",
+        category="other",
+        text='Tree well-formedness invariants evaluated through the public Pair/Pairs API on every successful parse of the run in all four modes (random and bundled grammars); theorem spec_tree_wf pending.',
+        design_ref="§6 C06",
+        technique="hand-written Lean 4 model (spec/interp/gen/opt layers) tied to the code by differential correspondence; property oracle on the implementation; Lean theorems being added",
+    ),
+    "C07": dict(
+        engine="core",
+        category="other",
+        text='All four modes on well-formed grammars: no exception other than PestParsingError escapes, the repeated call is equal, every parse terminates within the time limit; exact correspondence with the models (which have an explicit exc result); theorems interp_no_exc / parse_terminates pending.',
+        design_ref="§6 C07",
+        technique="hand-written Lean 4 model (spec/interp/gen/opt layers) tied to the code by differential correspondence; property oracle on the implementation; Lean theorems being added",
+    ),
+    "C08": dict(
+        engine="core",
+        category="other",
+        text='Metamorphic run on the implementation: meaning-preserving rewrites (parentheses, re-association, extraction into a silent rule, e|e, (e~NEVER)|e, (!e~NEVER)|e) at random sites of random grammars and of the bundled grammars (ASTs recovered from the real trees, printer round-trip checked), original vs rewritten in all four modes; L0 algebra theorems pending.',
+        design_ref="§6 C08",
+        technique="hand-written Lean 4 model (spec/interp/gen/opt layers) tied to the code by differential correspondence; property oracle on the implementation; Lean theorems being added",
+    ),
+    "C13": dict(
+        engine="core",
+        category="other",
+        text='Every failing parse of the run in all four modes: furthest position in range, listed names are rules/built-ins, str()/detailed_message() render, error_context equals the C14 formula; exact correspondence of furthest position and key lists with the L1/LG models; theorems fpos_in_range etc. pending.',
+        design_ref="§6 C13",
+        technique="hand-written Lean 4 model (spec/interp/gen/opt layers) tied to the code by differential correspondence; property oracle on the implementation; Lean theorems being added",
+    ),
+    "C16": dict(
+        engine="core",
+        category="other",
+        text='On SOI-free grammars in all four modes: parse(r,t,start_pos=k) equals parse(r,t[k:]) shifted by k (trees and failure positions), and changing the characters before k changes nothing; every correspondence request of the run uses random k as well; theorem shift_invariance pending.',
+        design_ref="§6 C16",
+        technique="hand-written Lean 4 model (spec/interp/gen/opt layers) tied to the code by differential correspondence; property oracle on the implementation; Lean theorems being added",
+    ),
+    "C18": dict(
+        engine="pratt",
+        category="proof",
+        text=("Theorems for all operator tables and all token streams: the model of the repaired parse_expr consumes every well-formed "
+              "stream (pratt_consumes_all), yields the input (pratt_yield), returns a tree satisfying the binding-power specification "
+              "Good (pratt_good), which is the unique such tree (good_unique, pratt_complete, pratt_spec). The model mirrors "
+              "PrattParser.parse_expr and Stream.next/peek and is tied to src/pest/pratt.py by a correspondence run over random and "
+              "exhaustive small tables x all well-formed streams up to length 7/9; the same run compares the real code with an "
+              "independent Python reference of the specification."),
+        design_ref="§6 C18",
+        technique="Lean 4 proof (induction on fuel/stream; uniqueness of the Good tree) + exhaustive differential correspondence model/impl",
+    ),
 }
 
 NOT_YET = "check not built yet in this snapshot of /verif (work in progress; see DESIGN.md §9.1 for the order of work)"
@@ -71,6 +153,10 @@ manifest = {
     "engines": [
         {"name": "stack", "path": "harness/eng_stack.py", "serves_properties": ["C09"],
          "kind_free_text": "Lean model lean/PestModel/{Stack,State}.lean + proofs Props/C09.lean; exhaustive + random histories, three-way comparison impl / full-copy reference / Lean model"},
+        {"name": "core", "path": "harness/eng_core.py", "serves_properties": ["C01", "C02", "C03", "C04", "C05", "C06", "C07", "C08", "C13", "C16"],
+         "kind_free_text": "Lean models Spec (L0), Interp (L1), Gen (LG), Opt; grammar generator; four execution modes; per-property oracles"},
+        {"name": "pratt", "path": "harness/eng_pratt.py", "serves_properties": ["C18"],
+         "kind_free_text": "Lean model lean/PestModel/Pratt.lean + proofs Props/C18.lean; tables x streams, three-way comparison"},
         {"name": "text", "path": "harness/eng_text.py", "serves_properties": ["C14"],
          "kind_free_text": "Lean model lean/PestModel/LineCol.lean + proofs Props/C14.lean; exhaustive small texts x offsets, three-way comparison impl / formula / Lean model"},
     ],
